@@ -23,11 +23,15 @@ def shards(tier):
         {"name": "exh.np.jit", "mode": "jit", "backend": "np", "fn": "exh", "Ns": [1, 2] if q else [1, 2, 3]},
         {"name": "rand.np.jit", "mode": "jit", "backend": "np", "fn": "rand", "n": 6000 if q else 300000,
          "chain": 500 if q else 10000},
+        {"name": "forms.np.jit", "mode": "jit", "backend": "np", "fn": "rand", "n": 1200 if q else 30000, "chain": 200 if q else 2000, "forms": 1},
         {"name": "rand.np.interp", "mode": "interp", "backend": "np", "fn": "rand", "n": 1500 if q else 30000,
          "chain": 300 if q else 3000},
         {"name": "exh.torch", "mode": "jit", "backend": "torch", "fn": "exh", "Ns": [1, 2] if q else [1, 2, 3]},
         {"name": "rand.torch", "mode": "jit", "backend": "torch", "fn": "rand", "n": 1500 if q else 40000,
          "chain": 300 if q else 3000},
+        {"name": "big.np.jit", "mode": "jit", "backend": "np", "fn": "big", "n": 20 if q else 400},
+        {"name": "big.np.interp", "mode": "interp", "backend": "np", "fn": "big", "n": 4 if q else 40},
+        {"name": "big.torch", "mode": "jit", "backend": "torch", "fn": "big", "n": 8 if q else 150},
     ]
     if not q:
         for k in range(6):
@@ -243,3 +247,66 @@ def run_rand(shard, rec, B):
             if ok:
                 E = O.mul(g1[:, None, :], 0, g2[None, :, :], 0)[1].reshape(-1)
                 rec.check("ipow_product", np.array_equal(B.ph(R), E % 4), [g1, g2], True)
+
+
+def run_big(shard, rec, B):
+    """registers and lists around machine-word / byte / block thresholds (N up to 130, lists to 1000, products to 10^5 terms);
+    table oracle only (dense matrices do not exist at these sizes)."""
+    rng = gen.rng_for(rec)
+    for t in range(shard["n"]):
+        for N in gen.BIG_NS:
+            # single high/low-qubit operators and dense random ones
+            pairs = [(gen.sparse_string(rng, N), gen.sparse_string(rng, N)), (gen.rand_string(rng, N), gen.rand_string(rng, N))]
+            hi = np.zeros(2 * N, dtype=np.int64)
+            lo = np.zeros(2 * N, dtype=np.int64)
+            q = int(rng.integers(N))
+            hi[2 * q], lo[2 * q + 1] = 1, 1          # X_q vs Z_q on one qubit anywhere in the register
+            pairs.append((hi, lo))
+            for g1, g2 in pairs:
+                p1, p2 = int(rng.integers(4)), int(rng.integers(4))
+                _matmul(rec, B, g1, p1, g2, p2)
+                a = B.utils.acq(B.arr(g1), B.arr(g2))
+                rec.check("acq", int(B.np(a)) == int(O.anti(g1, g2)), ["big", N, O.g2s(g1), O.g2s(g2)], True, expected=int(O.anti(g1, g2)), observed=int(B.np(a)))
+                ip = B.utils.ipow(B.arr(g1), B.arr(g2))
+                rec.check("ipow", int(B.ph(ip)) == int(O.mul(g1, 0, g2, 0)[1]), ["big", N, O.g2s(g1), O.g2s(g2)], True)
+            L = int(rng.integers(2, 9))
+            gs = np.stack([gen.sparse_string(rng, N) if rng.integers(2) else gen.rand_string(rng, N) for _ in range(L)])
+            gs[0], gs[1] = hi, lo
+            ok, M = rec.attempt("acq_mat", [N, L], lambda: B.utils.acq_mat(B.arr(gs)))
+            if ok:
+                rec.check("acq_mat", np.array_equal(B.np(M), O.anti_mat(gs)), ["big", N, [O.g2s(g) for g in gs]], True,
+                          expected=O.anti_mat(gs), observed=B.np(M))
+            ps = rng.integers(0, 4, L)
+            C = rng.integers(0, 2, (3, L))
+            ok, R = rec.attempt("combine", [N, L], lambda: B.utils.pauli_combine(B.arr(C), B.arr(gs), B.arr(ps)))
+            if ok:
+                og = np.zeros((3, 2 * N), dtype=np.int64)
+                op = np.zeros(3, dtype=np.int64)
+                for a_ in range(3):
+                    for b_ in range(L):
+                        if C[a_, b_]:
+                            og[a_], op[a_] = O.mul(og[a_], op[a_], gs[b_], ps[b_])
+                rec.check("combine.chain", np.array_equal(B.np(R[0]), og) and np.array_equal(B.ph(R[1]), op % 4), ["big", N, C, [O.show(g, p) for g, p in zip(gs, ps)]], True)
+        # long lists and large polynomial products (phases checked term by term with the vectorised table oracle)
+        shapes = [(300, 300), (1000, 70), (2, 40000), (257, 255), (64, 1025)] if t == 0 else [(int(rng.integers(1, 400)), int(rng.integers(1, 400)))]
+        for (L1, L2) in shapes:
+            N = int(rng.integers(2, 6))
+            g1, g2 = rng.integers(0, 2, (L1, 2 * N)), rng.integers(0, 2, (L2, 2 * N))
+            q1, q2 = rng.integers(0, 4, L1), rng.integers(0, 4, L2)
+            c1, c2 = gen.rand_coeffs(rng, L1), gen.rand_coeffs(rng, L2)
+            case = ["big batch_dot", N, L1, L2, int(g1.sum()), int(g2.sum())]
+            ok, R = rec.attempt("batch_dot", case, lambda: B.utils.batch_dot(B.arr(g1), B.arr(q1), B.carr(c1), B.arr(g2), B.arr(q2), B.carr(c2)))
+            if ok:
+                eg, ep = O.mul(g1[:, None, :], q1[:, None], g2[None, :, :], q2[None, :])
+                rg, rp, rc = B.np(R[0]), B.ph(R[1]), B.cnp(R[2])
+                good = rg.shape == (L1 * L2, 2 * N) and np.array_equal(rg, eg.reshape(L1 * L2, 2 * N)) and np.array_equal(rp, ep.reshape(-1) % 4) \
+                    and np.allclose(rc, (c1[:, None] * c2[None, :]).reshape(-1), atol=1e-4)
+                bad = None
+                if not good and rg.shape == (L1 * L2, 2 * N):
+                    w = np.nonzero((rp != ep.reshape(-1) % 4) | np.any(rg != eg.reshape(L1 * L2, 2 * N), axis=1))[0]
+                    bad = {"first_wrong_term": int(w[0]) if len(w) else None, "n_wrong": int(len(w))}
+                rec.check("batch_dot", bool(good), case, True, observed=bad)
+            ok, R = rec.attempt("poly.matmul", case, lambda: B.Poly(g1, q1, c1) @ B.Poly(g2, q2, c2))
+            if ok:
+                eg, ep = O.mul(g1[:, None, :], q1[:, None], g2[None, :, :], q2[None, :])
+                rec.check("poly.matmul", np.array_equal(B.np(R.gs), eg.reshape(L1 * L2, 2 * N)) and np.array_equal(B.ph(R.ps), ep.reshape(-1) % 4), case, True)
